@@ -53,24 +53,43 @@ inductive Call (α : Type) where
   | grid (nrows ncols : Nat)
   deriving Inhabited
 
-/-- perform one call: the object afterwards and the exception, if any (the object is unchanged then). -/
-def step (fuel : Nat) (o : DieOut α) : Call α → DieOut α × Option SplitRects.Err
-  | .split ratio n => match split fuel o ratio n with | .ok o' => (o', none) | .error e => (o, some e)
+/-- perform one call: the object afterwards and the exception, if any (the object is unchanged then).
+    `fuelOf rects ratio n` = the fuel handed to the `while` loops of `split_rectangles` (see `fuelQ`). -/
+def step (fuelOf : List (Rect α) → α → Nat → Nat) (o : DieOut α) : Call α → DieOut α × Option SplitRects.Err
+  | .split ratio n =>
+    match split (fuelOf (fpRects o).1 ratio n) o ratio n with | .ok o' => (o', none) | .error e => (o, some e)
   | .grid nr nc => match grid o nr nc with | .ok o' => (o', none) | .error e => (o, some e)
 
-/-- a session: the objects after each call (last first is avoided: in call order) and the final object. -/
-def run (fuel : Nat) : DieOut α → List (Call α) → DieOut α × List (DieOut α × Option SplitRects.Err)
+/-- a session: the final object, and the object / exception after each call, in call order. -/
+def run (fuelOf : List (Rect α) → α → Nat → Nat) :
+    DieOut α → List (Call α) → DieOut α × List (DieOut α × Option SplitRects.Err)
   | o, [] => (o, [])
   | o, c :: cs =>
-    let r := step fuel o c
-    let rest := run fuel r.1 cs
+    let r := step fuelOf o c
+    let rest := run fuelOf r.1 cs
     (rest.1, r :: rest.2)
 
-/-! ### a fuel that provably suffices at `Rat` (the exact stream of the driver) -/
+/-! ### a fuel that provably suffices at `Rat` (the exact stream of the driver)
 
-/-- `⌈log₂⌉`-style bound: least `k ≤ bound` with `a ≤ 2^k` (`bound` if none). -/
-def log2Up (a : Nat) : Nat → Nat
-  | 0 => 0
-  | k + 1 => if a ≤ 2 ^ (log2Up a k) then log2Up a k else k + 1
+`FV.C11.split_terminates` needs `K` with `aspect ≤ ratio · 2^K` for every input.  At `Rat` such a `K` is computable:
+`aspect = p/q ≤ p < 2^(log2 p + 1)` and `ratio > 1`. -/
+
+/-- `K` for one rectangle. -/
+def levelQ (r : Rect Rat) : Nat := r.aspectRatio.num.natAbs.log2 + 1
+
+/-- `K` for a list. -/
+def levelsQ (rs : List (Rect Rat)) : Nat := rs.foldl (fun k r => max k (levelQ r)) 0
+
+/-- the fuel of `FV.C11.split_terminates`, computed from the arguments. -/
+def fuelQ (rs : List (Rect Rat)) (_ratio : Rat) (n : Nat) : Nat :=
+  rs.length * (2 ^ (levelsQ rs + 1) - 1) + n + 8
+
+/-- `split_rectangles` at `Rat` without a fuel argument. -/
+def splitRectanglesQ (rs : List (Rect Rat)) (ratio : Rat) (n : Nat) : Except SplitRects.Err (List (Rect Rat)) :=
+  splitRectangles (fuelQ rs ratio n) rs ratio n
+
+/-- `die.split_refinable_regions(ratio, n)` at `Rat` without a fuel argument. -/
+def splitQ (o : DieOut Rat) (ratio : Rat) (n : Nat) : Except SplitRects.Err (DieOut Rat) :=
+  split (fuelQ (fpRects o).1 ratio n) o ratio n
 
 end FV.DieObj
